@@ -153,11 +153,37 @@ def run_property(pid, tier, seed=0):
     # contracts used as stubs whose home unit was verified in this run are proved, not assumed
     proved_here = {f['fn'] for f in functions if f['status'] == 'proved'}
     assumed = sorted({s for s in assumed_contracts if s not in proved_here} | always_assumed)
+    # ---- Kani harnesses (bounded stand-ins / cross-checks) registered for this property
+    from . import kani as KANI
+    from . import cex as CEX
+    kres = dict(results=[], violations=[], undecided=[], wall_s=0.0, checks=0, harnesses=0)
+    if cfg.get('kani', True):
+        try:
+            kres = KANI.run_property(pid, tier)
+        except Exception as ex:
+            undecided.append(f'kani run failed: {ex}')
+    undecided += kres['undecided']
     # ---- report
     os.makedirs(os.path.join(VERIF, 'build', 'replays'), exist_ok=True)
     exit_code = 0
     reported = 0
     lines = []
+    seen_generic = set()
+    for kv in kres['violations']:
+        finding = match_known(known, pid, kv['harness'], None)
+        if finding:
+            lines.append(f"KNOWN-FINDING: property={pid} {finding}")
+            continue
+        reported += 1
+        rp = os.path.join(VERIF, 'build', 'replays', f"{pid}_kani_{kv['harness']}_{kv['mode']}.json")
+        h = [x for x in KANI.load_harnesses() if x['name'] == kv['harness']][0]
+        tests, r, raw = KANI.concrete_playback_all(h, mode=kv['mode'])
+        replay = dict(property=pid, function=kv['harness'], engine='kani', failed_obligations=kv['failed_checks'] or [kv['reason']], verifier_output=[kv['reason']],
+                      config=kv['config'], mode=kv['mode'],
+                      concrete_input=(dict(engine='kani', harness=kv['harness'], mode=kv['mode'], playback_tests=tests) if tests else None))
+        json.dump(replay, open(rp, 'w'), indent=1)
+        lines.append(f"VIOLATION property={pid} replay={rp}" + ('' if tests else ' no-failing-input-found'))
+        exit_code = 1
     for v in violations:
         item = v['item']
         res = v['res']
@@ -165,6 +191,10 @@ def run_property(pid, tier, seed=0):
         if finding:
             lines.append(f"KNOWN-FINDING: property={pid} {finding}")
             continue
+        gk = CEX.generic_key(item['key']) + '/' + res['mode']
+        if gk in seen_generic:
+            continue  # same function, another digit type: one VIOLATION line per function and mode
+        seen_generic.add(gk)
         reported += 1
         rp = os.path.join(VERIF, 'build', 'replays', f"{pid}_{res['unit']}_{res['digit']}_{res['mode']}_{item['key'].replace('::', '.').replace(' ', '')}.json")
         replay = dict(property=pid, function=item['key'], unit=res['unit'], digit=res['digit'], mode=res['mode'],
@@ -172,7 +202,6 @@ def run_property(pid, tier, seed=0):
                       generated_file=res['file'], checker_cmd=res['cmd'], concrete_input=None)
         cex = None
         try:
-            from . import cex as CEX
             cex = CEX.search(pid, item['key'], res['digit'], res['mode'])
         except Exception as ex:  # counter-example search is best effort
             replay['cex_search_error'] = str(ex)
@@ -185,8 +214,18 @@ def run_property(pid, tier, seed=0):
     if exit_code == 0 and undecided:
         exit_code = 2
     wall = time.time() - t0
-    ev = dict(property_id=pid, tier=tier, seed=seed, level='proof', wall_s=round(wall, 2), violations=reported,
-              coverage=dict(obligations=obligations, discharged=discharged,
+    kpass = sum(1 for r in kres['results'] if r['verdict'] == 'pass')
+    level = cfg.get('level', 'proof' if own_units else 'model_checking')
+    nproved = sum(1 for f in functions if f['status'] == 'proved')
+    for r in kres['results'][:6]:
+        samples.append(dict(kani_harness=r['harness'], config=r['config'], mode=r['mode'], verdict=r['verdict'], checks=r['checks'], inputs=r['inputs']))
+    ev = dict(property_id=pid, tier=tier, seed=seed, level=level, wall_s=round(wall, 2), violations=reported,
+              coverage=dict(obligations=obligations + kres['checks'], discharged=discharged + sum((r['checks'] or 0) for r in kres['results'] if r['verdict'] in ('pass',)),
+                            verus_obligations=obligations, verus_discharged=discharged,
+                            evaluations=len(functions) + len(kres['results']), distinct_nontrivial=nproved + kpass,
+                            rule='one case = one contracted function (per digit type and build mode) whose every obligation Verus discharged, or one Kani harness (full symbolic input domain of one configuration) that passed with its reachability cover satisfied',
+                            kani=dict(harnesses=len(kres['results']), passed=kpass, cbmc_checks=kres['checks'], wall_s=kres['wall_s'], results=kres['results'],
+                                      note='bounded: complete over all inputs of the listed configurations only; never counted as proved'),
                             checker_cmd='verus <generated file> --output-json --time --error-format=json (one file per unit x digit x mode under build/verus/)',
                             trusted_base=ASSUMPTIONS,
                             functions=functions, assumed_contracts=assumed, rewrites=rewrites,
